@@ -272,7 +272,9 @@ func (s Server) Serve(c context.Context, conn network.Conn) (err error) {
 
 		if err != nil {
 			if errors.Is(err, errs.ErrNothingRead) {
-				return nil
+				// the peer closed without sending a byte: nothing to answer and nothing to
+				// report, but this side still has to be closed (a nil result leaves it open)
+				return errIdleTimeout
 			}
 
 			if err == io.EOF {
